@@ -25,6 +25,18 @@ is an arbitrary partial function. -/
 def HashTotal (env : Env S G1 G2) (cs : Suite G1) (dst : Bytes) : Prop :=
   ∀ msg, ∃ s, hashToScalar env cs msg dst = .ok s
 
+/-- `HashTotal` spelled out: a tag of at most 255 octets for which `expand_message` returns
+48 octets on every message. -/
+theorem HashTotal_of_expand (cs : Suite G1) (dst : Bytes) (hdst : dst.length ≤ 255)
+    (hexp : ∀ msg, ∃ u, env.expand cs.xof msg dst cs.expandLen = some u ∧ u.length = 48) :
+    HashTotal env cs dst := by
+  intro msg
+  obtain ⟨u, hu, hlen⟩ := hexp msg
+  refine ⟨env.okm u, ?_⟩
+  unfold hashToScalar
+  rw [if_neg (by omega), hu]
+  simp [hlen]
+
 /-- `hashToScalar` never panics. -/
 theorem hashToScalar_ne_panic (cs : Suite G1) (msg dst : Bytes) :
     hashToScalar env cs msg dst ≠ .panic := by
